@@ -39,7 +39,28 @@ def signatures(n):
                 yield [{'n': NAMES[i], 'k': k, 'd': d} for i, (k, d) in enumerate(zip(kinds, flags))]
 
 
+def gen_posonly(tier, rng):
+    """parameters before `/` (with defaults): they cannot be given by name, so they are neither documented nor accepted in a params object"""
+    P = D.P
+    for sig in ([P('p', 'po', True), P('a', d=True)], [P('p', 'po', True), P('q', 'po', True), P('a', d=True), P('k', 'ko', True)],
+                [P('p', 'po', True)], [P('p', 'po', True), P('k', 'ko')], [P('p', 'po', True), P('a', d=True), P('k', 'ko')]):
+        for ctx in (None, 'a'):
+            if ctx and not any(x['n'] == ctx for x in sig):
+                continue
+            m = D.M('f', sig, D.ECHO)
+            if ctx:
+                m['ctx'] = ctx
+            keys = [x['n'] for x in sig] + ['zz']
+            keysets = [list(s2) for r in range(len(keys) + 1) for s2 in itertools.combinations(keys, r)]
+            yield {'suite': NAME, 'op': 'specbind', 'method': m, 'keysets': keysets, 'tag': 'specbind-posonly'}
+
+
 def generate(tier, rng):
+    yield from gen_posonly(tier, rng)
+    yield from _generate(tier, rng)
+
+
+def _generate(tier, rng):
     thorough = tier == 'thorough'
     maxn = 4
     for n in range(0, maxn + 1):
